@@ -76,7 +76,8 @@ func mustABI(s string) abi.ABI {
 
 // CoinDenoms is the universe of cosmos denominations of the world (all have genesis supply).
 var CoinDenoms = []string{
-	"acoin", "bcoin", "ccoin",
+	"acoin", "bcoin", "ccoin", "dcoin", "ecoin",
+	"ibc/6B5A664BF0AF4F71B2F0BAA33141E2F1321242FBD5D19762F541EC971ACB0865",
 	"ibc/7F1D3FCF4AE79E1554D670D1AD949A9BA4E4A3C76C63093E17E446A46061A7A2",
 	"ibc/27394FB092D2ECCD56123C74F36E4C1F926001CEADA9CA97EA622B25F41E5EB2",
 }
